@@ -87,7 +87,7 @@ def prepare_scratch(repo, scratch, units):
         if not os.path.exists(modfile):
             raise ExtractError(f"anchor lost: module file {u.module} missing")
         with open(modfile, "a") as f:
-            f.write(f"\n#[cfg(kani)]\n#[path = \"{dst}\"]\nmod verif_{u.name};\n")
+            f.write(f"\n#[cfg(kani)]\n#[path = \"{dst}\"]\npub(crate) mod verif_{u.name};\n")
         notes["attached"].append({"unit": u.name, "module": u.module})
         # annotations: add-only attribute lines above the fn
         byfile = {}
